@@ -18,11 +18,15 @@
 //! Script lines (objects are named by paths / tags, any line may be deleted):
 //!   mod <path> ttl=<n>                  a module; order of lines = creation order; a module whose parent
 //!                                       does not exist (yet) does not exist
-//!   link <src> <dst> lat=<ns> jit=<ns>  gate o_<dst> of <src> --channel--> gate i_<src> of <dst>
+//!   link <src> <dst> lat=<ns> jit=<ns> [rate=<bit/s>]
+//!                                       gate o_<dst> of <src> --channel--> gate i_<src> of <dst>; with a bitrate the
+//!                                       channel is busy while it transmits and queues (Queue(None)) what comes then;
+//!                                       a probe logs every start of a transmission (`xmit <src> <dst> <serial>`)
 //!   link <src> <dst> direct             the same without a channel
 //!   rule <path> start|end|msg:<kind> <step>...      first matching rule wins
 //!   task <tag> <step>...
-//!   step = draw | draw32 | send:<dst>:<kind> | sched:<delay>:<kind> | spawn:<task>
+//!   step = draw | draw32 | send:<dst>:<kind>[:<delay>] (send / send_in) | sched:<delay>:<kind> | spawn:<task>
+//!        | sig:<name> | wait:<name>                  tokio Semaphore of the module: add_permits(1) / acquire().await (tasks)
 //!        | sleep:<ns> | sel:<ns>,<ns>[,<ns>]        (spawn: handlers only; sleep, sel: tasks only)
 //!        | shut | restart:<ns>                       `current().shutdown()` / `shutdow_and_restart_in(ns)`, from
 //!                                                    handlers and tasks; at most 2 per module and run
@@ -37,6 +41,7 @@
 //! parameter), the script lines, then per run R in a1 a2 b c
 //!   o <R> <time> <path> <what> <who> <src> <args...>     canonical observation (no ids, no addresses)
 //!   d <R> <path> <task>                                  unfinished task dropped with the simulation
+//!   tx <src> <dst> <ns>                                  measured transmission time of a message on a link with a bitrate
 //!   bt <R> <ns>                                          (header `clock=1`) `SimTime::now()` while the network is built
 //!   res <R> ok time=<ns> events=<n> left=<n> | err=<kind>
 use crate::rng::Rng;
@@ -55,7 +60,9 @@ use std::task::{Context, Poll};
 enum Step {
     Draw,
     Draw32,
-    Send(String, u16),
+    Send(String, u16, u64),
+    Sig(String),
+    Wait(String),
     Sched(u64, u16),
     Spawn(String),
     Sleep(u64),
@@ -75,7 +82,8 @@ enum On {
 struct Link {
     src: String,
     dst: String,
-    chan: Option<(u64, u64)>,
+    /// latency, jitter, bitrate
+    chan: Option<(u64, u64, u64)>,
 }
 
 #[derive(Default, Debug)]
@@ -91,7 +99,10 @@ fn parse_step(t: &str) -> Option<Step> {
     match p.as_slice() {
         ["draw"] => Some(Step::Draw),
         ["draw32"] => Some(Step::Draw32),
-        ["send", dst, k] => Some(Step::Send(dst.to_string(), k.parse().ok()?)),
+        ["send", dst, k] => Some(Step::Send(dst.to_string(), k.parse().ok()?, 0)),
+        ["send", dst, k, d] => Some(Step::Send(dst.to_string(), k.parse().ok()?, d.parse().ok()?)),
+        ["sig", n] => Some(Step::Sig(n.to_string())),
+        ["wait", n] => Some(Step::Wait(n.to_string())),
         ["sched", d, k] => Some(Step::Sched(d.parse().ok()?, k.parse().ok()?)),
         ["spawn", t] => Some(Step::Spawn(t.to_string())),
         ["sleep", d] => Some(Step::Sleep(d.parse().ok()?)),
@@ -156,7 +167,11 @@ fn parse(body: &[String]) -> Net {
                 let mut lat = None;
                 let mut jit = None;
                 let mut direct = false;
+                let mut rate = 0u64;
                 for kv in rest {
+                    if let Some(v) = kv.strip_prefix("rate=") {
+                        rate = v.parse::<u64>().unwrap_or(0);
+                    }
                     if let Some(v) = kv.strip_prefix("lat=") {
                         lat = v.parse::<u64>().ok();
                     } else if let Some(v) = kv.strip_prefix("jit=") {
@@ -169,7 +184,7 @@ fn parse(body: &[String]) -> Net {
                     None
                 } else {
                     match (lat, jit) {
-                        (Some(l), Some(j)) => Some((l, j)),
+                        (Some(l), Some(j)) => Some((l, j, rate)),
                         _ => continue,
                     }
                 };
@@ -211,10 +226,57 @@ struct Shared {
     ids: Vec<(u16, String)>,
     /// `Module::reset` calls per module path (= incarnation number)
     incs: Vec<(String, u32)>,
+    /// semaphores of the modules: (module path, name)
+    sems: Vec<((String, String), Arc<tokio::sync::Semaphore>)>,
+}
+
+fn sem_of(path: &str, name: &str) -> Arc<tokio::sync::Semaphore> {
+    let mut s = sh();
+    if let Some(x) = s.sems.iter().find(|x| x.0 .0 == path && x.0 .1 == name) {
+        return x.1.clone();
+    }
+    let n = Arc::new(tokio::sync::Semaphore::new(0));
+    s.sems.push(((path.to_string(), name.to_string()), n.clone()));
+    n
+}
+
+/// fires whenever the channel starts a transmission (`Channel::send_message` on an idle channel), also outside
+/// of any module event (unbusy notifications, delayed sends): the place where the jitter is drawn
+struct XProbe {
+    src: String,
+    dst: String,
+}
+impl des::net::channel::ChannelProbe for XProbe {
+    fn on_message_transmit(&mut self, _: &ChannelMetrics, msg: &Message) {
+        let serial = msg.try_content::<u64>().copied().unwrap_or(0);
+        let t = SimTime::now().as_nanos();
+        sh().log.push(format!("{t} - xmit {} {} {serial}", self.src, self.dst));
+    }
+}
+
+fn make_channel(l: &Link) -> Option<des::net::channel::ChannelRef> {
+    l.chan.map(|(lat, jit, rate)| {
+        let ch = Channel::new(ChannelMetrics::new(
+            rate as usize,
+            Duration::from_nanos(lat),
+            Duration::from_nanos(jit),
+            ChannelDropBehaviour::Queue(None),
+        ));
+        ch.attach_probe(XProbe { src: l.src.clone(), dst: l.dst.clone() });
+        ch
+    })
+}
+
+/// transmission time of one (72 byte) harness message on the channel of a link, as the code computes it
+fn tx_of(l: &Link) -> u128 {
+    match make_channel(l) {
+        Some(ch) => ch.calculate_busy(&Message::default().with_content(0u64)).as_nanos(),
+        None => 0,
+    }
 }
 
 static SH: Mutex<Shared> =
-    Mutex::new(Shared { log: Vec::new(), drops: Vec::new(), serial: 0, ids: Vec::new(), incs: Vec::new() });
+    Mutex::new(Shared { log: Vec::new(), drops: Vec::new(), serial: 0, ids: Vec::new(), incs: Vec::new(), sems: Vec::new() });
 
 /// at most this many shutdowns per module and run, so that every script terminates
 const MAX_INC: u32 = 2;
@@ -256,7 +318,7 @@ fn step_sync(net: &Net, path: &str, st: &Step, ttl: u16, who: &str) {
             let x = des::runtime::random::<u32>();
             obs("draw32", who, "-", &[x as u64]);
         }
-        Step::Send(dst, kind) => {
+        Step::Send(dst, kind, delay) => {
             if ttl == 0 || !net.links.iter().any(|l| l.src == path && l.dst == *dst) {
                 return;
             }
@@ -265,9 +327,19 @@ fn step_sync(net: &Net, path: &str, st: &Step, ttl: u16, who: &str) {
                 s.serial += 1;
                 s.serial
             };
-            obs("send", who, dst, &[*kind as u64, (ttl - 1) as u64, serial]);
-            send(Message::default().kind(*kind).id(ttl - 1).with_content(serial), gate_o(dst).as_str());
+            obs("send", who, dst, &[*kind as u64, (ttl - 1) as u64, serial, *delay]);
+            let msg = Message::default().kind(*kind).id(ttl - 1).with_content(serial);
+            if *delay == 0 {
+                send(msg, gate_o(dst).as_str());
+            } else {
+                send_in(msg, gate_o(dst).as_str(), Duration::from_nanos(*delay));
+            }
         }
+        Step::Sig(name) => {
+            obs("sig", who, "-", &[]);
+            sem_of(path, name).add_permits(1);
+        }
+        Step::Wait(_) => {}
         Step::Sched(delay, kind) => {
             if ttl == 0 {
                 return;
@@ -380,6 +452,13 @@ fn spawn_task(net: Arc<Net>, path: String, tag: String, steps: Vec<Step>, ttl: u
                     let w = do_select(&tag, ds).await;
                     obs("sel", &tag, "-", &[w]);
                 }
+                Step::Wait(name) => {
+                    let sem = sem_of(&path, name);
+                    if let Ok(p) = sem.acquire().await {
+                        p.forget();
+                    }
+                    obs("got", &tag, "-", &[]);
+                }
                 s => step_sync(&net, &path, s, ttl, &tag),
             }
         }
@@ -461,6 +540,7 @@ fn simulate(net: &Arc<Net>, seed: u64) -> RunOut {
         s.serial = 0;
         s.ids.clear();
         s.incs.clear();
+        s.sems.clear();
     }
     let net2 = net.clone();
     let r = guarded(move || {
@@ -476,10 +556,11 @@ fn simulate(net: &Arc<Net>, seed: u64) -> RunOut {
         for l in &net.links {
             let o = sim.gate(l.src.as_str(), &gate_o(&l.dst));
             let i = sim.gate(l.dst.as_str(), &gate_i(&l.src));
-            let ch = l.chan.map(|(lat, jit)| {
-                Channel::new(ChannelMetrics::new(0, Duration::from_nanos(lat), Duration::from_nanos(jit), ChannelDropBehaviour::Drop))
-            });
-            o.connect(i, ch);
+            o.clone().connect(i, make_channel(l));
+            // `connect` installs a duplicate of the channel on the gate: the probe goes onto that one
+            if let Some(ch) = o.channel() {
+                ch.attach_probe(XProbe { src: l.src.clone(), dst: l.dst.clone() });
+            }
         }
         *BUILT_AT.lock().unwrap_or_else(|e| e.into_inner()) = SimTime::now().as_nanos();
         let rt = Builder::seeded(seed).quiet().build(sim.freeze());
@@ -531,7 +612,7 @@ fn burn_module_ids(header: &str) {
 }
 
 fn is_result_line(l: &str) -> bool {
-    l.starts_with("o ") || l.starts_with("d ") || l.starts_with("bt ") || l.starts_with("res ")
+    l.starts_with("o ") || l.starts_with("d ") || l.starts_with("bt ") || l.starts_with("res ") || l.starts_with("tx ")
 }
 
 fn emit_run(out: &mut String, name: &str, r: &RunOut, clock: bool) {
@@ -647,6 +728,14 @@ pub fn exec(input: &str) -> String {
         for l in body {
             writeln!(out, "{l}").unwrap();
         }
+        // measured transmission times (a parameter of the model)
+        for l in &parse(body).links {
+            if let Some((_, _, rate)) = l.chan {
+                if rate != 0 {
+                    writeln!(out, "tx {} {} {}", l.src, l.dst, tx_of(l)).unwrap();
+                }
+            }
+        }
         let clock = hval(header, "clock").map(|v| v == "1").unwrap_or(false);
         emit_run(&mut out, "a1", a1, clock);
         emit_run(&mut out, "a2", a2, clock);
@@ -685,7 +774,7 @@ fn gen_steps(r: &mut Rng, out: &mut String, in_task: bool, peers: &[String], kin
             }
             continue;
         }
-        let x = if draws_only { r.below(3) } else { r.below(if in_task { 12 } else { 10 }) };
+        let x = if draws_only { r.below(3) } else { r.below(if in_task { 14 } else { 11 }) };
         match x {
             0 | 1 => write!(out, " draw").unwrap(),
             2 => write!(out, " draw32").unwrap(),
@@ -693,6 +782,10 @@ fn gen_steps(r: &mut Rng, out: &mut String, in_task: bool, peers: &[String], kin
                 if emitting < 2 && !peers.is_empty() {
                     emitting += 1;
                     write!(out, " send:{}:{}", r.pick(peers), r.range(1, kinds)).unwrap();
+                    // one send in four is a `send_in`
+                    if r.chance(1, 4) {
+                        write!(out, ":{}", r.pick(&DELAYS[1..])).unwrap();
+                    }
                 } else {
                     write!(out, " draw").unwrap();
                 }
@@ -703,13 +796,15 @@ fn gen_steps(r: &mut Rng, out: &mut String, in_task: bool, peers: &[String], kin
                     write!(out, " sched:{}:{}", r.pick(&DELAYS), r.range(1, kinds)).unwrap();
                 }
             }
-            7 | 8 | 9 if !in_task => {
+            7 => write!(out, " sig:{}", r.pick(&["x", "y"])).unwrap(),
+            8 | 9 | 10 if !in_task => {
                 if emitting < 2 && !tasks.is_empty() {
                     emitting += 1;
                     write!(out, " spawn:{}", r.pick(tasks)).unwrap();
                 }
             }
-            7 | 8 => write!(out, " sleep:{}", r.pick(&DELAYS)).unwrap(),
+            8 | 9 => write!(out, " sleep:{}", r.pick(&DELAYS)).unwrap(),
+            10 => write!(out, " wait:{}", r.pick(&["x", "y"])).unwrap(),
             _ => {
                 // select over 2-3 sleeps; mostly equal deadlines, so that the seeded start index decides
                 let k = r.range(2, 3);
@@ -720,6 +815,9 @@ fn gen_steps(r: &mut Rng, out: &mut String, in_task: bool, peers: &[String], kin
         }
     }
 }
+
+/// bitrates that make the transmission of one 72-byte harness message take about 1, 2, 3, 5, 10, 1000 ns
+const RATES: [u64; 6] = [576_000_000_000, 288_000_000_000, 192_000_000_000, 115_200_000_000, 57_600_000_000, 576_000_000];
 
 /// one generated network (the lines between `case` and `end`)
 fn gen_case(r: &mut Rng, out: &mut String, noise: bool) {
@@ -773,7 +871,9 @@ fn gen_case(r: &mut Rng, out: &mut String, noise: bool) {
                 writeln!(out, "link {} {} direct", paths[s], paths[d]).unwrap();
             } else {
                 let jit = if restartable[d] { 0 } else { *r.pick(&JITS) };
-                writeln!(out, "link {} {} lat={} jit={jit}", paths[s], paths[d], r.pick(&LATS)).unwrap();
+                // one channel in three has a bitrate: it is busy while it transmits and queues what comes then
+                let rate = if r.chance(1, 3) { format!(" rate={}", r.pick(&RATES)) } else { String::new() };
+                writeln!(out, "link {} {} lat={} jit={jit}{rate}", paths[s], paths[d], r.pick(&LATS)).unwrap();
             }
             peers[s].push(paths[d].clone());
         }
@@ -809,9 +909,20 @@ fn gen_case(r: &mut Rng, out: &mut String, noise: bool) {
                 writeln!(out).unwrap();
             }
         }
-        if r.chance(1, 3) {
+        // at_sim_end: draws, and in half of the rules emissions (send / schedule_in / spawned tasks that send
+        // during the final tick): SimLifecycle::at_sim_end does not flush the emission buffer, so these are
+        // what a simulation leaves behind in BUF_CTX when it is dropped.  The noise simulation always does.
+        if noise || r.chance(1, 3) {
             write!(out, "rule {p} end").unwrap();
-            gen_steps(r, out, false, &peers[i], kinds, tl, true, false);
+            let draws_only = !noise && r.chance(1, 2);
+            gen_steps(r, out, false, &peers[i], kinds, tl, draws_only, false);
+            if noise {
+                write!(out, " sched:{}:1", r.pick(&DELAYS)).unwrap();
+                if let Some(d) = peers[i].first() {
+                    write!(out, " send:{d}:1").unwrap();
+                }
+                write!(out, " spawn:{}", r.pick(&tasks)).unwrap();
+            }
             writeln!(out).unwrap();
         }
     }
